@@ -39,6 +39,7 @@ theorem run_state (K : Kernels α) : ∀ (ops : List (Op α)) (o : Obj α),
     | decode nr L Y => simp only [run, step, cfgChan, cfgNv, run_state K ops]
     | filters v => simp only [run, step, cfgChan, cfgNv, run_state K ops]
     | sinr v => simp only [run, step, cfgChan, cfgNv, run_state K ops]
+    | channel => simp only [run, step, cfgChan, cfgNv, run_state K ops]
 
 /-- observations do not change the state -/
 theorem step_obs_state (K : Kernels α) (o : Obj α) (op : Op α)
@@ -50,6 +51,7 @@ theorem step_obs_state (K : Kernels α) (o : Obj α) (op : Op α)
   | decode nr L Y => rfl
   | filters v => rfl
   | sinr v => rfl
+  | channel => rfl
 
 /-- outside the Blast family the noise variance is never touched -/
 theorem cfgNv_other (s : Scheme) (hs : s.blastFamily = false) (v0 : α) :
@@ -130,6 +132,69 @@ theorem blast_obj_roundtrip {n : Nat} (K : Kernels ℂ) (o : Obj ℂ) (c : Chan 
     rw [key]
     exact flattenF_reshapeF c.nt x hm j hj hj'
 
+section entry
+variable {α : Type} [Zero α] [One α] [Add α] [Sub α] [Mul α] [Div α] [Neg α] [NatCast α] [CScalar α]
+
+/-- the constructor argument goes through the class's own `set_channel_matrix` -/
+theorem construct_eq_setter (K : Kernels α) (s : Scheme) (c : ChanArg α) :
+    (∀ o, construct s c = .ok o ↔ step K (constructEmpty s) (.setChannel c) = (o, .done)) ∧
+    (∀ e, construct s c = .error e ↔ step K (constructEmpty s) (.setChannel c) = (constructEmpty s, .err e)) := by
+  unfold construct
+  cases h : storeChan s c with
+  | ok ch =>
+    constructor
+    · intro o
+      simp only [step, constructEmpty, h]
+      constructor
+      · intro ho; cases ho; rfl
+      · intro ho
+        have := congrArg Prod.fst ho
+        simp only at this
+        rw [← this]
+    · intro e
+      simp only [step, constructEmpty, h]
+      constructor
+      · intro ho; cases ho
+      · intro ho
+        have := congrArg Prod.snd ho
+        cases this
+  | error e' =>
+    constructor
+    · intro o
+      simp only [step, constructEmpty, h]
+      constructor
+      · intro ho; cases ho
+      · intro ho
+        have := congrArg Prod.snd ho
+        cases this
+    · intro e
+      simp only [step, constructEmpty, h]
+      constructor
+      · intro ho; cases ho; rfl
+      · intro ho
+        have := congrArg Prod.snd ho
+        simp only at this
+        cases this
+        rfl
+
+/-- a later replacement stores exactly what the constructor would have stored -/
+theorem replace_eq_construct (K : Kernels α) (s : Scheme) (c : ChanArg α) (o o' : Obj α)
+    (h : construct s c = .ok o) (hs : o'.scheme = s) (hn : o'.nv = 0) :
+    step K o' (.setChannel c) = (o, .done) := by
+  unfold construct at h
+  cases hc : storeChan s c with
+  | ok ch =>
+    rw [hc] at h
+    cases h
+    cases o' with
+    | mk sch ch' nv =>
+      simp only at hs hn
+      subst hs; subst hn
+      simp only [step, hc]
+  | error e => rw [hc] at h; cases h
+
+end entry
+
 /-- a call that raises leaves the object exactly as it was -/
 theorem step_err_state {α : Type} [Zero α] [One α] [Add α] [Sub α] [Mul α] [Div α] [Neg α] [NatCast α]
     [CScalar α] (K : Kernels α) (o : Obj α) (op : Op α) (e : PyErr)
@@ -154,6 +219,7 @@ theorem step_err_state {α : Type} [Zero α] [One α] [Add α] [Sub α] [Mul α]
   | decode nr L Y => rfl
   | filters v => rfl
   | sinr v => rfl
+  | channel => rfl
 
 end Pf
 end PyPhysim.C04
